@@ -1,8 +1,8 @@
 package main
 
 import (
-	"go/token"
 	"fmt"
+	"go/token"
 	"strings"
 
 	"golang.org/x/tools/go/ssa"
@@ -250,7 +250,9 @@ func runC02(c *Ctx) {
 		for i, rp := range paths {
 			d, ok := hasFact(rp.Facts, func(f Fact) bool {
 				return f.Pol && f.T.Op == "bin" && f.T.Name == "==" &&
-					termHas(f.T, func(x *Term) bool { return x.Op == "call" && x.Name == "builtin.len" && strings.HasSuffix(x.Args[0].String(), ".Groups") }) &&
+					termHas(f.T, func(x *Term) bool {
+						return x.Op == "call" && x.Name == "builtin.len" && strings.HasSuffix(x.Args[0].String(), ".Groups")
+					}) &&
 					termHas(f.T, func(x *Term) bool { return x.Op == "call" && x.Fn != nil && x.Fn.Name() == "GetNumOfGpuDevices" })
 			})
 			c.Check(ok, "O4", "RET", fmt.Sprintf("%s non-nil path#%d", funcKey(sel), i), rp.Pos, d, "a device selection is returned although len(Groups) != requested number of devices")
@@ -299,7 +301,9 @@ func runC02(c *Ctx) {
 			okClr := false
 			if clrStore != nil {
 				fs := fx.FactsAt(clrStore)
-				_, okClr = hasFact(fs, func(f Fact) bool { return !f.Pol && f.T.Op == "call" && f.T.Fn != nil && placing(f.T.V.(ssa.Instruction)) })
+				_, okClr = hasFact(fs, func(f Fact) bool {
+					return !f.Pol && f.T.Op == "call" && f.T.Fn != nil && placing(f.T.V.(ssa.Instruction))
+				})
 			}
 			c.Check(okClr, "O4", "DOM", construct+" cleared on failure", instrPos(cs), "pod.GPUGroups = nil behind a failed placement", "a failed fractional placement leaves the selected groups on the pending pod")
 		}
